@@ -19,6 +19,31 @@ CHECKS = {
  "C02": ("apply_c proved to accept exactly Sub x a and return b, reject with a mismatch-family error otherwise, Top and "
          "non-function cases; unify proved equivalent to match; run against Type.apply of /repo",
          "4 C02", "Coq proof + model/implementation correspondence"),
+ "C03": ("faithful fuelled Gallina model of the whole inference engine (unify/bind/above/below/check_constraints/"
+         "fulfill/minimize/fix/instance/apply), tied to /repo by comparing the complete canonical store after every "
+         "generated program; a witness checker proved sound w.r.t. Sub validates every accepted case (all groundings "
+         "of unresolved variables from a finite pool, resolved constraints, bounded variables); the unconditional "
+         "soundness theorem of the engine is NOT proved (partial: per-instance verified checker)",
+         "4 C03", "Coq-verified per-instance checker + engine model correspondence (universal soundness partial)"),
+ "C05": ("on the faithful engine model: lub / permutation invariance / monotonicity proved for every hierarchy and "
+         "any number of chain arguments (identity and nested covariant contexts, Top/Bottom included), glb for the "
+         "contravariant reading, above/below characterised; remaining contexts and leastness of fix() decided per "
+         "generated case on model and implementation",
+         "4 C05", "Coq proof by induction over the argument list on the engine model + correspondence + oracle"),
+ "C06": ("declarative Fits (exists instantiation with x <= alt) and a matcher proved equivalent for linear "
+         "alternatives (refuted for non-linear), monotone, = Sub for concrete alternatives; engine model proved to "
+         "accept iff fits for one base alternative; every generated case's accept/reject compared with the verified "
+         "matcher, unique-fit and between-ness oracles",
+         "4 C06", "Coq proof of the fits decision procedure + engine correspondence + oracle"),
+ "C09": ("add_from model: depends = transitive closure of from after every call list (any order, cycles, both "
+         "flags), every prefix closed, order irrelevant; verified closure decider used as oracle on every generated "
+         "expression/workflow graph and direct call history of /repo",
+         "4 C09", "Coq proof by induction over insertion histories + correspondence + verified closure oracle"),
+ "C18": ("schedules proved to only permute the pending constraints; independence of the outcome is refuted for the "
+         "error kind (C18_refuted, known finding) and otherwise searched exhaustively per case (all permutations at "
+         "every re-check point, imposed on /repo through the guarded hook) with model/implementation agreement per "
+         "schedule - the search is testing, the proved part is partial",
+         "4 C18", "Coq proof (partial) + refutation witness + exhaustive schedule search via hook"),
 }
 
 NOT_YET = {}
